@@ -109,7 +109,7 @@ def var_text(prefix, name, spell):
     return '%s[%s]' % (prefix, qgen.py_str(name, q))
 
 
-def run_backend(backend, query, names, rows, scratch, jnames=None, jrows=None, normalize=True):
+def run_backend(backend, query, names, rows, scratch, jnames=None, jrows=None, normalize=True, generated=None):
     """Returns dict(out=[[str...]], header=[...]|None, error=...)."""
     rbql = engine.rbql
     if backend == 'list':
@@ -148,9 +148,17 @@ def run_backend(backend, query, names, rows, scratch, jnames=None, jrows=None, n
             os.remove(dbp)
         con = sqlite3.connect(dbp)
         qi = lambda n: '"' + n.replace('"', '""') + '"'
-        con.execute('create table t (%s)' % ', '.join(qi(n) + ' text' for n in names))
-        if rows:
-            con.executemany('insert into t values (%s)' % ','.join('?' * len(names)), rows)
+        if generated is None:
+            con.execute('create table t (%s)' % ', '.join(qi(n) + ' text' for n in names))
+            if rows:
+                con.executemany('insert into t values (%s)' % ','.join('?' * len(names)), rows)
+        else:
+            # column `gi` is a generated (computed) column: a copy of column `src`; `SELECT *` returns it like any other column
+            gi, src = generated
+            con.execute('create table t (%s)' % ', '.join(qi(n) + (' text' if j != gi else ' text generated always as (%s) virtual' % qi(names[src])) for j, n in enumerate(names)))
+            if rows:
+                con.executemany('insert into t (%s) values (%s)' % (', '.join(qi(n) for j, n in enumerate(names) if j != gi), ','.join('?' * (len(names) - 1))),
+                                [[c for j, c in enumerate(r) if j != gi] for r in rows])
         if jrows is not None:
             con.execute('create table b (%s)' % ', '.join(qi(n) + ' text' for n in jnames))
             if jrows:
@@ -194,6 +202,11 @@ def check_names(case, scratch, stats=None):
         return   # known finding D16: a column named like the engine's internal literal placeholder
     v = var_text('a', name, case['spell'])
     jnames = jrows = None
+    generated = None
+    if backend == 'sqlite' and len(names) >= 2 and use in ('select', 'where', 'except') and (len(name) + len(rows)) % 2 == 0:
+        gi = (pos + 1) % len(names)
+        generated = (gi, pos)
+        rows = [[(r[pos] if j == gi else c) for j, c in enumerate(r)] for r in rows]
     if use == 'select':
         query = 'select %s, NR' % v
         exp = [[r[pos], i + 1] for i, r in enumerate(rows)]
@@ -219,7 +232,7 @@ def check_names(case, scratch, stats=None):
         n = len(rows)
         exp = [[i + 1, n - i] for i in range(n)]
         exp_header = ['NR', 'bNR']
-    r = run_backend(backend, query, names, rows, scratch, jnames, jrows)
+    r = run_backend(backend, query, names, rows, scratch, jnames, jrows, generated=generated)
     hostile = any(ch in name for ch in '"\'\\[]{} \t\n\r') or not name.isascii()
     if stats is not None:
         stats.case(case, hostile, ['backend-' + backend, 'use-' + use, 'spell-' + case['spell']] + (['hostile-name'] if hostile else []),
